@@ -7,6 +7,7 @@ import (
 	"fmt"
 	"go/constant"
 	"go/token"
+	"go/types"
 	"strings"
 
 	"golang.org/x/tools/go/ssa"
@@ -58,6 +59,19 @@ func (c *Ctx) loaderGuard(fn *ssa.Function) loaderGuardInfo {
 						off = true
 					}
 				}
+				// the same through a predicate of the footer (hasNoStoredSection()) or any other spelling
+				// that path facts see
+				for _, f := range edgePathFacts(fn) {
+					if f.nonzero || !(f.edge == b || f.edge.Dominates(b)) {
+						continue
+					}
+					if strings.HasSuffix(f.path, ".numDocs") {
+						nd = true
+					}
+					if strings.HasSuffix(f.path, "Offset") {
+						off = true
+					}
+				}
 				if nd && !off {
 					g.numDocsZero = true
 				}
@@ -100,6 +114,10 @@ func (c *Ctx) loaderGuard(fn *ssa.Function) loaderGuardInfo {
 		}
 		bin, ok := ifi.Cond.(*ssa.BinOp)
 		if !ok || (bin.Op != token.EQL && bin.Op != token.NEQ) {
+			// a predicate call or a compound condition: both ways, what holds is read from the
+			// path facts at the return
+			walk(b.Succs[0], trail, depth+1)
+			walk(b.Succs[1], trail, depth+1)
 			return
 		}
 		field := ""
@@ -212,6 +230,14 @@ func init() {
 					wf := c.MustFn(writer)
 					key := writer + "/" + s.name
 					calls := callsInFn(wf, ems)
+					if len(calls) == 0 {
+						// the tail of the writer split off: `return s.writeSections()` - the sections are
+						// written where the helper writes them, and the writer succeeds only through it
+						if h := tailHelper(c, wf); h != nil && len(callsInFn(h, ems)) > 0 {
+							wf = h
+							calls = callsInFn(wf, ems)
+						}
+					}
 					if len(calls) == 0 {
 						r.undecided(key, writer, c.pos(wf.Pos()), "the emitter of the "+s.name+" section is no longer called here: "+strings.Join(keys(ems), ","))
 						continue
@@ -354,7 +380,11 @@ func init() {
 			cv := c.MustFn("(*interim).convert")
 			key = "(*interim).convert/writer"
 			n, bad := 0, ""
-			for _, b := range cv.Blocks {
+			cvBlocks := append([]*ssa.BasicBlock{}, cv.Blocks...)
+			if h := tailHelper(c, cv); h != nil {
+				cvBlocks = append(cvBlocks, h.Blocks...) // the section writers may sit in the split-off tail
+			}
+			for _, b := range cvBlocks {
 				for _, ins := range b.Instrs {
 					ci, ok := ins.(ssa.CallInstruction)
 					if !ok {
@@ -434,6 +464,17 @@ func (c *Ctx) skipIsZeroDocs(fn *ssa.Function, emitter *ssa.Call) (bool, string)
 			return true, ""
 		}
 		return false, "the guarding condition tests " + x.String() + ", which is not the document count recorded in the footer"
+	}
+	// the guard spelled through a predicate (noSurvivors(n)) or as a case of a tagless switch:
+	// the value recorded as the footer's document count is known non-zero at the emitter
+	ft := c.NamedType("footer").Obj()
+	for _, st := range c.census().fieldStores[fieldKey{ft, "numDocs"}] {
+		if st.fn != fn {
+			continue
+		}
+		if pathKnown(fn, accessPath(stripConv(st.val)), true, emitter.Block()) {
+			return true, ""
+		}
 	}
 	return false, "the emitter is not under a document-count guard"
 }
@@ -926,6 +967,8 @@ func runsThroughStepTable(c *Ctx, fn, step *ssa.Function) bool {
 				v = x.X
 			case *ssa.Field:
 				v = x.X
+			case *ssa.Index:
+				v = x.X // an element of an array value (range over an array copies it)
 			case *ssa.Slice:
 				v = x.X
 			case *ssa.UnOp:
@@ -1036,7 +1079,16 @@ func runsThroughStepTable(c *Ctx, fn, step *ssa.Function) bool {
 			continue
 		}
 		if x, name, ok := lenOrCapOf(bin.Y); !ok || name != "len" || root(x) != table {
-			continue
+			// a table that is an array: the bound is its constant length
+			arrLen := int64(-1)
+			if pt, isPtr := table.Type().Underlying().(*types.Pointer); isPtr {
+				if at, isArr := pt.Elem().Underlying().(*types.Array); isArr {
+					arrLen = at.Len()
+				}
+			}
+			if k, isK := constInt(bin.Y); !isK || arrLen < 0 || k != arrLen {
+				continue
+			}
 		}
 		// success only through the loop's normal exit
 		okAll := true
@@ -1050,4 +1102,51 @@ func runsThroughStepTable(c *Ctx, fn, step *ssa.Function) bool {
 		}
 	}
 	return false
+}
+
+// tailHelper: fn's every successful return hands on the results of one call of an
+// in-package function (`return s.writeSections()`): that function.
+func tailHelper(c *Ctx, fn *ssa.Function) *ssa.Function {
+	var h *ssa.Function
+	// the returns that may report success: a nil error, or an error handed on from a call
+	var rets []*ssa.BasicBlock
+	for _, b := range fn.Blocks {
+		ret, ok := b.Instrs[len(b.Instrs)-1].(*ssa.Return)
+		if !ok || len(ret.Results) == 0 {
+			continue
+		}
+		ev := resolveLoad(ret.Results[len(ret.Results)-1])
+		if isNilConst(ev) {
+			rets = append(rets, b)
+			continue
+		}
+		if _, isEx := ev.(*ssa.Extract); isEx && !knownNonNilAt(ev, b) {
+			rets = append(rets, b)
+		} else if _, isCall := ev.(*ssa.Call); isCall && !knownNonNilAt(ev, b) {
+			rets = append(rets, b)
+		}
+	}
+	for _, rb := range rets {
+		ret := rb.Instrs[len(rb.Instrs)-1].(*ssa.Return)
+		var call *ssa.Call
+		for _, res := range ret.Results {
+			v := resolveLoad(res)
+			switch x := v.(type) {
+			case *ssa.Extract:
+				if cl, ok := x.Tuple.(*ssa.Call); ok {
+					call = cl
+				}
+			case *ssa.Call:
+				call = x
+			}
+		}
+		if call == nil || call.Call.StaticCallee() == nil || !c.inRoot(call.Call.StaticCallee()) || call.Call.StaticCallee().Blocks == nil {
+			return nil
+		}
+		if h != nil && h != call.Call.StaticCallee() {
+			return nil
+		}
+		h = call.Call.StaticCallee()
+	}
+	return h
 }
